@@ -272,9 +272,24 @@ func runBig(c bigCase, r *pb.Rec) error {
 			}
 		}
 	case "range":
-		reader = func() { s.Range(func(k, v int) bool { got[k] = v; return true }) }
+		// the callbacks are scheduling points (every 16th key): the writer is tried while the enumeration is under way
+		reader = func() {
+			s.Range(func(k, v int) bool {
+				if got[k] = v; len(got)%16 == 1 {
+					conc.Yield()
+				}
+				return true
+			})
+		}
 	case "all":
-		reader = func() { s.All()(func(k, v int) bool { got[k] = v; return true }) }
+		reader = func() {
+			s.All()(func(k, v int) bool {
+				if got[k] = v; len(got)%16 == 1 {
+					conc.Yield()
+				}
+				return true
+			})
+		}
 	default:
 		return nil
 	}
